@@ -3,7 +3,10 @@ SPEC = {
               "runner": {"pkg": "./vflow", "test": "TestVerifOptions", "race": False}}],
     "rule": "real NewOptions+flagSet on random subsets of {environment, file, command line} x 0..4 of the 45 documented "
             "int/string/bool keys x random values (both dash spellings, -k v / -k=v / bare bool, repeated flags, "
-            "foreign-typed yaml scalars, ineffective env names, a file nobody points at) plus malformed values and flags; "
+            "foreign-typed yaml scalars, ineffective env names, a file nobody points at, near-miss words) plus malformed "
+            "values and flags; the config flag in all four spellings package flag accepts (-config F, --config F, -config=F, "
+            "--config=F), with an empty path, without a value as the last word; without an expectation (model against code "
+            "only): the flag given twice, behind --, as the value of another flag; "
             "non-trivial = the process reached the end of flagSet; distinct = distinct case line",
     "assumptions": ["package flag / strconv / yaml.v2 semantics as transcribed in Vflow.Model.Options",
                     "the configuration file is given to the model as typed scalars (canonical integers, true/false, quoted strings)",
@@ -11,13 +14,20 @@ SPEC = {
 }
 META = {
     "text": "Lean theorem over every option table, every environment, file system and argument list: if the process reaches "
-            "the end of flagSet, every setting equals command line, else the file named by -config, else VFLOW_<KEY>, else "
-            "the built-in default; the other stage orders are refuted by counterexample; the option table, the flag "
-            "registrations (default = current value) and the statement order of flagSet are regenerated from the Go AST "
+            "the end of flagSet, every setting equals command line, else the file named by the config flag, else VFLOW_<KEY>, "
+            "else the built-in default; which file: loadCfg's test of a word equals package flag's reading of it as the flag "
+            "config for every string (config_word_spec), each of the four spellings brings the file at its path into the "
+            "precedence (precedence_spelling), and it is the file whose path flag.Parse leaves in config when every word "
+            "spelling the flag is read as the flag and it is given at most once (precedence_config_flag; both conditions "
+            "shown necessary; the scan before the repair of F22 kept as old_locate_counterexample); "
+            "the other stage orders are refuted by counterexample; the option table, the flag "
+            "registrations (default = current value), the statement order of flagSet and the os.Args loop of loadCfg are regenerated from the Go AST "
             "and pinned by decide; the model is tied to the real NewOptions+flagSet on random configurations.",
     "ref": "DESIGN.md §6 C17",
     "note": "Trusted: Lean kernel; hand-written model Vflow.Model.Options (flag/strconv/yaml semantics transcribed); factgen; "
-            "the hook and its generator. Out of scope: list-valued sflow-type-filter, --config/-config=x spellings, "
-            "non-canonical yaml scalars, fields without yaml tag as yaml keys.",
+            "the hook and its generator. Out of scope: list-valued sflow-type-filter, "
+            "non-canonical yaml scalars, fields without yaml tag as yaml keys. Recorded, not repaired: loadCfg takes the first "
+            "config flag (package flag keeps the last) and also words package flag does not read as flags; "
+            "-config / --config as the last word panics instead of flag's message.",
     "technique": "Lean 4 proof (stages as data) + go/ast option table + differential run of the real option loading",
 }
